@@ -7,7 +7,8 @@ import (
 	plush "github.com/gobuffalo/plush/v5"
 )
 
-// C03 oracle (model-free): Parse terminates and does not panic, on every generated input.
+// C03 oracle (model-free): Parse terminates and does not panic, on every generated input (stream C03-tok);
+// every entry point agrees on it, on every call (stream C03-entry, oracle_c03_entry.go).
 func init() {
 	oracles["C03"] = func(cfg Config) []*Report {
 		rep := NewReport("C03", "C03-tok", cfg)
@@ -32,6 +33,10 @@ func init() {
 					What: "Parse did not return within 3s"})
 			}
 		}
+		if _, _, ok := c03ParseEntryCase(cfg.Arg); ok {
+			// a case of the entry-point/history stream (oracle_c03_entry.go)
+			return []*Report{c03EntryStream(cfg)}
+		}
 		if cfg.Arg != "" {
 			s, err := strconv.Unquote(cfg.Arg)
 			if err != nil {
@@ -42,6 +47,6 @@ func init() {
 		}
 		genParseInputs(cfg, check)
 		enumTexts(cfg.N(5, 7), check)
-		return []*Report{rep}
+		return []*Report{rep, c03EntryStream(cfg)}
 	}
 }
